@@ -150,11 +150,19 @@ func oracleC02(r *Result) ([]Violation, bool) {
 		if len(leaders) > 0 {
 			nontrivial = true
 		}
-		if len(leaders) > 1 {
-			add(viol("two-leaders", "at %v (%s) instances %v all report IsLeader()==true", e.T, e.K, leaders), e.T)
+		for i := range leaders {
+			for j := i + 1; j < len(leaders); j++ {
+				if sameGroup(r, leaders[i], leaders[j]) {
+					add(viol("two-leaders", "at %v (%s) instances %s and %s of one group both report IsLeader()==true", e.T, e.K, leaders[i], leaders[j]), e.T)
+				}
+			}
 		}
 		for _, l := range leaders {
-			rec := e.Rec
+			if e.K != "q" && !sameGroup(r, l, e.I) {
+				continue
+			}
+			e := e
+			rec := recOf(r, &e, l)
 			after := ""
 			if stoppedBefore(r, l, idx) {
 				after = "/after-stop-returned"
@@ -170,4 +178,39 @@ func oracleC02(r *Result) ([]Violation, bool) {
 		}
 	}
 	return vs, nontrivial
+}
+
+// recOf returns the live record of inst's group as recorded in event e.
+func recOf(r *Result, e *Ev, inst string) *RecView {
+	g := "g"
+	if sp := r.Scn.inst(inst); sp != nil && sp.Group != "" {
+		g = sp.Group
+	}
+	if e.K != "q" || g == "g" {
+		if e.K != "q" && e.I != inst {
+			// non-q events carry the record of e.I's group only
+			if sp := r.Scn.inst(e.I); sp != nil {
+				g2 := sp.Group
+				if g2 == "" {
+					g2 = "g"
+				}
+				if g2 != g {
+					return nil
+				}
+			}
+		}
+		return e.Rec
+	}
+	return e.Recs[g]
+}
+
+func sameGroup(r *Result, a, b string) bool {
+	ga, gb := "g", "g"
+	if sp := r.Scn.inst(a); sp != nil && sp.Group != "" {
+		ga = sp.Group
+	}
+	if sp := r.Scn.inst(b); sp != nil && sp.Group != "" {
+		gb = sp.Group
+	}
+	return ga == gb
 }
